@@ -11,5 +11,7 @@ def run(ctx):
             # the same lookup issued again with the query cache on: sub-queries answered from the cache
             {"module": "GenLookup.tla", "cfg": "Gen_C13_repeat.cfg", "name": "repeat"},
             # sortlists: addresses matching early / late / no entry, IPv4 and IPv6 entries, hosts-file addresses
-            {"module": "GenLookup.tla", "cfg": "Gen_C13_sort.cfg", "name": "sortlist"}]
+            {"module": "GenLookup.tla", "cfg": "Gen_C13_sort.cfg", "name": "sortlist"},
+            # both families asked, answers whose RFC 6724 order interleaves the families
+            {"module": "GenLookup.tla", "cfg": "Gen_C13_mix.cfg", "name": "mixfam"}]
     simlib.engine_check(ctx, gens, FACETS, labels=("c13.",), selftests=mutators.LOOKUP)
